@@ -957,6 +957,9 @@ def lazily_stage_wrapper(plan):
     def inner(msg):
         if msg.command in COMMANDS and msg.obj not in devices_staged:
             root = root_ancestor(msg.obj)
+            if root in devices_staged:
+                # The root is staged already; stage() just did not list this component.
+                return None, None
 
             def new_gen():
                 # Here we insert a 'stage' message
